@@ -101,6 +101,31 @@ func Start(engine, dir string) (*Server, error) {
 	return s, nil
 }
 
+// Connect attaches to an emulator running in another process (no in-process server: GcPass/GcAuto are unavailable).
+func Connect(addr string) (*Server, error) {
+	s := &Server{Engine: "external", parents: map[string]bool{}}
+	conn, err := grpc.NewClient(addr, grpc.WithTransportCredentials(insecure.NewCredentials()),
+		grpc.WithDefaultCallOptions(grpc.MaxCallRecvMsgSize(256<<20), grpc.MaxCallSendMsgSize(256<<20)))
+	if err != nil {
+		return nil, err
+	}
+	s.conn = conn
+	s.Data = btpb.NewBigtableClient(conn)
+	s.Admin = btapb.NewBigtableTableAdminClient(conn)
+	return s, nil
+}
+
+// Parents / SetParents carry the set of instances used so far across reconnects.
+func (s *Server) Parents() []string {
+	s.mu.Lock()
+	defer s.mu.Unlock()
+	var out []string
+	for p := range s.parents {
+		out = append(out, p)
+	}
+	return out
+}
+
 func (s *Server) notePanic(msg string) {
 	s.mu.Lock()
 	s.Panics = append(s.Panics, msg)
